@@ -42,7 +42,7 @@ func (c07) Components() map[string][]string {
 	}
 }
 func (c07) ProbeNames() []string {
-	return []string{"comp-none", "comp-gzip", "comp-xz", "comp-lz4", "comp-zstd", "no-fragments", "no-compress-flags", "cache-0", "cache-1", "cache-default", "start-nonzero", "big-dir", "sparse-run", "symlink", "bs-large", "block-list-over-2-metadata-blocks"}
+	return []string{"comp-none", "comp-gzip", "comp-xz", "comp-lz4", "comp-zstd", "no-fragments", "no-compress-flags", "cache-0", "cache-1", "cache-default", "start-nonzero", "big-dir", "sparse-run", "symlink", "bs-large", "block-list-over-2-metadata-blocks", "over-512-fragment-blocks"}
 }
 func (c07) Budget(tier string) (int, int, int) {
 	if tier == "thorough" {
@@ -67,10 +67,19 @@ func (c07) Gen(r *core.Rng, tier string, idx int) *core.Trace {
 		t.Cfg["bigdir"] = r.Range(50, 400)
 	}
 	t.Cfg["symlinks"] = int64(r.Intn(2))
+	// more than 512 fragment blocks: the fragment table needs a second metadata block and a second index entry
+	t.Cfg["manyfrags"] = 0
+	if t.Cfg["bs"] == 4096 && r.Chance(12) {
+		t.Cfg["manyfrags"] = r.Range(2150, 2600)
+	}
 	// one file of more than 4096 blocks: its block list alone spans three 8 KiB metadata blocks
 	t.Cfg["manyblocks"] = 0
 	if t.Cfg["bs"] == 4096 && r.Chance(25) {
 		t.Cfg["manyblocks"] = r.Range(4100, 4500)
+	}
+	if t.Cfg["comp"] == 2 {
+		// xz is two orders of magnitude slower: it keeps the small trees
+		t.Cfg["manyblocks"], t.Cfg["manyfrags"] = 0, 0
 	}
 	return t
 }
@@ -134,6 +143,16 @@ func c07Tree(t *core.Trace, bs int64) []imgEntry {
 			data[k] = byte('a' + (k/97+k)%23) // compressible, position dependent
 		}
 		tree = append(tree, imgEntry{Path: "d/many-blocks.bin", Data: data})
+	}
+	if mf := t.I("manyfrags"); mf > 0 && bs == 4096 {
+		if mf > 4000 {
+			mf = 4000
+		}
+		tree = append(tree, imgEntry{Path: "tails", Dir: true})
+		for i := int64(0); i < mf; i++ {
+			// about 1000 incompressible bytes each: four tails per 4 KiB fragment block
+			tree = append(tree, imgEntry{Path: fmt.Sprintf("tails/t%04d.bin", i), Data: core.PatternBytes(tag^uint64(i)*2654435761, 990+i%21)})
+		}
 	}
 	if bd := t.I("bigdir"); bd > 0 {
 		if bd > 600 {
@@ -296,6 +315,9 @@ func execSquashBuild(t *core.Trace, prop string) *core.Result {
 	if t.I("bigdir") > 0 {
 		res.Probe("big-dir")
 	}
+	if t.I("manyfrags") > 0 && t.I("bs") == 4096 && t.I("nofrag") == 0 {
+		res.Probe("over-512-fragment-blocks")
+	}
 	if t.I("manyblocks") > 0 && t.I("bs") <= 8192 {
 		res.Probe("block-list-over-2-metadata-blocks")
 	}
@@ -373,6 +395,15 @@ func execSquashBuild(t *core.Trace, prop string) *core.Result {
 						}
 					}
 					continue
+				}
+				// the many small files that exist to fill the fragment table are all listed, and a sample of them
+				// (every 19th, and the last sixty, whose fragment numbers are the highest) is read
+				if strings.HasPrefix(p, "tails/t") && len(p) == len("tails/t0000.bin") {
+					var k int64
+					fmt.Sscanf(p[len("tails/t"):], "%d", &k)
+					if k%19 != 0 && k < t.I("manyfrags")-60 {
+						continue
+					}
 				}
 				data, err := rfs.ReadFile(p)
 				if err != nil || !bytes.Equal(data, m.Data) {
